@@ -267,6 +267,68 @@ pub fn f() -> usize {
 }
 """ % HDRS)
 
+
+    # the doc-hidden helper API (`httparse::_benchable`): the cursor type and the start-line
+    # helpers hand out slices too, and must tie them to the buffer the cursor was made from
+    helpers = [
+        ("parse_method", "&str", 'b"GET /x HTTP/1.1\\r\\n"', "match httparse::_benchable::parse_method(&mut c) { Ok(httparse::Status::Complete(m)) => m, _ => \"\" }"),
+        ("parse_uri", "&str", 'b"/x/y HTTP/1.1\\r\\n"', "match httparse::_benchable::parse_uri(&mut c) { Ok(httparse::Status::Complete(m)) => m, _ => \"\" }"),
+        ("bytes_slice", "&[u8]", 'b"abc def"', "{ let _ = c.next(); let _ = c.next(); c.slice() }"),
+        ("bytes_peek_n", "&[u8; 4]", 'b"abcdefgh"', "c.peek_n::<&[u8; 4]>(4).unwrap()"),
+    ]
+    for hid, hty, text, expr in helpers:
+        if hid == "bytes_peek_n":
+            # peek_n borrows the cursor as well ('b: 'a): only the buffer-side programs apply
+            pass
+        add("benchable_%s__buffer_dropped" % hid, "reject", """
+pub fn f() -> usize {
+    let f;
+    {
+        let buf: Vec<u8> = %s.to_vec();
+        let mut c = httparse::_benchable::Bytes::new(&buf);
+        f = %s;
+    }
+    f.len()
+}
+""" % (text, expr))
+        add("benchable_%s__buffer_mutated" % hid, "reject", """
+pub fn f() -> usize {
+    let mut buf: Vec<u8> = %s.to_vec();
+    let mut c = httparse::_benchable::Bytes::new(&buf);
+    let f = %s;
+    buf[0] = b'X';
+    f.len()
+}
+""" % (text, expr))
+        add("benchable_%s__returned_static" % hid, "reject", """
+pub fn f(buf: &[u8]) -> %s {
+    let mut c = httparse::_benchable::Bytes::new(buf);
+    %s
+}
+""" % (hty.replace("&", "&'static "), expr))
+        if hid != "bytes_peek_n":
+            add("benchable_%s__outlives_cursor_ok" % hid, "compile", """
+pub fn f() -> usize {
+    let buf: Vec<u8> = %s.to_vec();
+    let f;
+    {
+        let mut c = httparse::_benchable::Bytes::new(&buf);
+        f = %s;
+    }
+    f.len()
+}
+""" % (text, expr))
+    add("benchable_bytes__cursor_outlives_buffer", "reject", """
+pub fn f() -> Option<u8> {
+    let c;
+    {
+        let buf: Vec<u8> = b"abc".to_vec();
+        c = httparse::_benchable::Bytes::new(&buf);
+    }
+    c.peek()
+}
+""")
+
     # usage patterns that must keep compiling
     add("readme_loop_ok", "compile", """
 pub fn f(chunks: &[&[u8]]) -> Option<usize> {
